@@ -106,9 +106,12 @@
             ("{{ [x]|length }}", 0),
             ("{{ 'a' if true }}{{ x|default('') }}", 0),
             ("{% if x is defined and x %}y{% endif %}ok", 0),
-            ("{{ x[:2] }}", 0b0001),
-            ("{{ x[:2] is defined }}", 0b0001),
-            ("{{ x[1:]|length }}", 0b0001),
+            // SemiStrict is documented as "like strict, but does not error when the undefined is checked for truthyness": what
+            // fails under Strict and is not a truth test fails under SemiStrict too. (A first version of these three rows said
+            // 0b0001 - what the code did: the Slice instruction tested for Strict only. DESIGN §11.)
+            ("{{ x[:2] }}", 0b0011),
+            ("{{ x[:2] is defined }}", 0b0011),
+            ("{{ x[1:]|length }}", 0b0011),
             ("{{ x|default('fb', true) }}", 0),
             ("{{ x|d('fb', true) }}", 0),
             ("{{ other.nope|default('fb', true) }}", 0),
